@@ -93,3 +93,51 @@ Proof.
   symmetry. induction H as [|a r Ha _ IH]; cbn [filter]; [reflexivity|].
   destruct (String.eqb (fst (fst a)) tfile) eqn:E; [apply String.eqb_eq in E; contradiction|exact IH].
 Qed.
+
+(* ---- rows rebased: when every row of the target's steps and of its recorded definitions moves by k (the target
+   analysed after a k-line prefix), every printed line moves by k and nothing else changes ---- *)
+Local Open Scope Z_scope.
+Definition shift_step (k : Z) (st : step) : step :=
+  {| st_row := st_row st + k; st_out := st_out st; st_infos := map (fun ri => (fst ri + k, snd ri)) (st_infos st) |}.
+Definition shift_line (k : Z) (l : line) : line :=
+  match l with LDiag f r m => LDiag f (r + k) m | LInfo f r t => LInfo f (r + k) t end.
+Definition shift_out (k : Z) (o : parser_out) : parser_out :=
+  {| po_errors := map (shift_line k) (po_errors o); po_infos := map (shift_line k) (po_infos o);
+     po_iterations := po_iterations o |}.
+Definition shift_src (k : Z) (s : source) : source := fun r => map (shift_step k) (s r).
+Definition shift_article (k : Z) (tfile : string) (a : article) : article :=
+  if String.eqb (fst (fst a)) tfile then (fst (fst a), snd (fst a) + k, snd a) else a.
+
+Lemma eval_loop_shift k chk file s : forall acc,
+  eval_loop chk file (map (shift_step k) s) (shift_out k acc) = shift_out k (eval_loop chk file s acc).
+Proof.
+  induction s as [|st r IH]; intros acc; cbn [map eval_loop]; [reflexivity|].
+  rewrite <- IH. f_equal. unfold shift_out; cbn [po_errors po_infos po_iterations shift_step st_out st_row st_infos].
+  rewrite !map_app, !map_map. f_equal.
+  destruct (fatal_msg (st_out st)); [destruct chk|]; reflexivity.
+Qed.
+
+Lemma defs_shift k tfile arts :
+  map (fun a : article => LInfo tfile (snd (fst a)) (snd a))
+      (filter (fun a : article => String.eqb (fst (fst a)) tfile) (map (shift_article k tfile) arts))
+  = map (shift_line k) (map (fun a : article => LInfo tfile (snd (fst a)) (snd a))
+                            (filter (fun a : article => String.eqb (fst (fst a)) tfile) arts)).
+Proof.
+  induction arts as [|a r IH]; cbn [map filter]; [reflexivity|].
+  destruct (String.eqb (fst (fst a)) tfile) eqn:E.
+  - assert (Ha : shift_article k tfile a = (fst (fst a), snd (fst a) + k, snd a)) by (unfold shift_article; rewrite E; reflexivity).
+    rewrite Ha. cbn [fst snd]. rewrite E. cbn [map shift_line fst snd]. rewrite IH. reflexivity.
+  - assert (Ha : shift_article k tfile a = a) by (unfold shift_article; rewrite E; reflexivity).
+    rewrite Ha, E. exact IH.
+Qed.
+
+Theorem rows_rebased fl preloads tfile tsrc articles k :
+  fst (fst (run_driver fl preloads (tfile, shift_src k tsrc) (map (shift_article k tfile) articles)))
+  = map (shift_line k) (fst (fst (run_driver fl preloads (tfile, tsrc) articles))).
+Proof.
+  unfold run_driver. cbn [fst]. unfold shift_src.
+  assert (He : forall s, eval_loop true tfile (map (shift_step k) s) empty_out = shift_out k (eval_loop true tfile s empty_out))
+    by (intros s; exact (eval_loop_shift k true tfile s empty_out)).
+  rewrite He. cbn [shift_out po_infos po_errors]. rewrite defs_shift.
+  destruct (fl_define_info fl); cbn [app]; rewrite ?map_app; reflexivity.
+Qed.
